@@ -122,7 +122,7 @@ def g_event(e):
     if k == "check":
         return f"ECheckDone {e[1]} {e[2]}"
     if k == "define":
-        return f"EDefine {e[1]} {N(e[2])} {N(e[3])} {g_claims(e[4])} {N(e[5])}"
+        return f"EDefine {e[1]} {N(e[2])} {N(e[3])} {g_claims(e[4])} {N(e[5])} {g_bool(e[6])}"
     if k == "hold":
         return f"EHold {e[1]} {e[2]}"
     if k == "release":
@@ -219,19 +219,25 @@ class Driver:
         return self.w.wf.find(Step, lab(n))
 
     # -- operations ---------------------------------------------------------------------------
-    async def define(self, p, n, g, cl, need):
+    async def define(self, p, n, g, cl, need, ev=None):
+        """ev: the env_overrides of the declaration; the model's oracle input eo says whether they differ
+        from the stored ones (read before the call; Step.after_recycle compares them)."""
         from stepup.core.enums import Need
         existed = n in self.idx
         executing = bool(self.cmds.get(n))
         before = None
+        eo = False
         if existed:
             async with self.w.db:
                 before = {o[0]: o for o in self.dump()}.get(n)
+                eo = (ev or {}) != self.step(n).get_env_overrides()
+        if eo:
+            self.count("define_env_overrides_differ")
 
         def fn():
             self.w.wf.define_step(self.step(p), lab(n), resources=dict(cl), need=Need(need),
-                                  out_paths=[f"{lab(n)}.o{g}"] if g else [])
-        acc = await self.op(("define", self.idx[p], n, g, cl, need), fn)
+                                  out_paths=[f"{lab(n)}.o{g}"] if g else [], env_overrides=ev)
+        acc = await self.op(("define", self.idx[p], n, g, cl, need, eo), fn)
         if acc and not existed:
             self.idx[n] = len(self.idx)
             self.cmds[n] = []
@@ -443,7 +449,8 @@ async def _one_trace(rng, length, script=None):
                 g = rng.choice([0, 0, 0, 1, 2])
                 need = Need.DEFAULT.value if rng.random() < 0.9 else Need.OPTIONAL.value
                 if n != p:
-                    await d.define(p, n, g, _rand_claims(rng), need)
+                    await d.define(p, n, g, _rand_claims(rng), need,
+                                   ev=rng.choice([None, None, None, {"A": "1"}, {"A": "2"}]))
             elif r < 0.72 and executing:
                 cand = [e for e in executing if e[0] != 0] or executing
                 n, k = rng.choice(cand)
@@ -478,6 +485,7 @@ def _recycle_script(rng):
     cl1 = rng.choice([{"gpu": 1}, {"gpu": 1}, {"cpu": 1}, {}])
     cl2 = rng.choice([{}, {"gpu": 1}, {"cpu": 2}, cl1, cl1, cl1])
     nhold = rng.choice([0, 0, 1, 1, 2])
+    ev2 = rng.choice([None, None, {"A": "1"}])
     dn = Need.DEFAULT.value
 
     async def popr(d):
@@ -508,7 +516,7 @@ def _recycle_script(rng):
             res = await popr(d)
             if res is None or res[0] == 1:
                 break
-        await d.define(1, 2, g2, cl2, dn)               # ... and declared again
+        await d.define(1, 2, g2, cl2, dn, ev=ev2)       # ... and declared again
         await d.define(1, 4, 0, {"gpu": 1}, dn)         # a competitor for the gpu
         for _ in range(3):
             await popr(d)
@@ -917,10 +925,7 @@ def oracle(ctx):
                               f"the command of {lbl} (job {job_i}) was launched with its step {st0} and returned with it {st1}"))
                 break
         for k, detail in found:
-            s = f"serve:{k}"
-            if k == "njob-exceeded":
-                circ = LP.njob_circumstance(res, njob)
-                s = f"serve:njob-exceeded:{circ[1] if circ else 'max-running'}"
+            s = _serve_sig(k, res, njob)
             if s in seen:
                 continue
             seen.add(s)
@@ -976,7 +981,30 @@ def oracle(ctx):
     ctx.sample({"oracle": "A at every real dispatch; B1 three witnesses; B2 random projects on serve()", "B2_builds": nb})
 
 
+def _serve_sig(k, res, njob):
+    """Signature of a stamp violation on the real serve(): the same string whether the oracle or the search
+    found it (the cause is what a KNOWN_FINDINGS entry names, not the phase that stumbled on it)."""
+    if k == "njob-exceeded":
+        circ = LP.njob_circumstance(res, njob)
+        return f"serve:njob-exceeded:{circ[1] if circ else 'max-running'}"
+    return f"serve:{k}"
+
+
 def search(ctx):
+    """Deeper run of the implementation-only oracles. Signatures are those of the oracle (a finding listed in
+    KNOWN_FINDINGS.json stays a known finding when the search meets it); the search goes on past listed
+    findings and stops at the first unlisted one."""
+    known = common.load_known()
+    reported = {f.signature for f in ctx.failures}
+
+    def report(name, sig, detail, witness):
+        """True iff the failure is unlisted (the search is done)."""
+        if sig in reported:
+            return False
+        reported.add(sig)
+        ctx.add_failure("oracle", name, sig, detail, witness=witness)
+        return common.known_match(ctx.pid, ctx.failures[-1], known) is None
+
     for _ in range(300):
         sub = __import__("random").Random(ctx.rng.getrandbits(48))
         proj, avail, din = LP.gen_amend_project(sub)
@@ -985,26 +1013,22 @@ def search(ctx):
                                {"seed": sub.getrandbits(30), "points": ["start", "end"]}])
         res, rec = LP.run_build(proj, njob, avail, schedule)
         _annotate_defs(res, proj.program)
-        found = check_stamps(res, njob, avail, din)
-        if found:
-            k, detail = found[0]
+        for k, detail in check_stamps(res, njob, avail, din):
             r = {"proj": proj, "schedule": schedule, "njob": njob, "avail": avail, "res": res}
-            ctx.add_failure("oracle", "search:" + k, f"serve:{k}:search", f"real serve(): {detail}", witness=_b3_witness(r))
-            return
+            if report("search:" + k, _serve_sig(k, res, njob), f"real serve() (search): {detail}", _b3_witness(r)):
+                return
     for _ in range(400):
         sub = __import__("random").Random(ctx.rng.getrandbits(48))
         found, proj, njob, avail, schedule, res = _random_build(sub)
-        if found:
-            k, detail = found[0]
-            ctx.add_failure("oracle", "search:" + k, f"serve:{k}:search", f"real serve(): {detail}",
-                            witness={"project": proj.to_json(), "schedule": schedule, "njob": njob, "resources": avail})
-            return
+        for k, detail in found:
+            if report("search:" + k, f"serve:{k}", f"real serve() (search): {detail}",
+                      {"project": proj.to_json(), "schedule": schedule, "njob": njob, "resources": avail}):
+                return
     for d in _run_traces(ctx, 300, 50):
-        if d.violations:
-            sig, detail, _ = d.violations[0]
-            ctx.add_failure("oracle", "search:" + sig, sig + ":search", detail,
-                            witness={"avail": d.avail, "events": [g_event(it[0]) for it in d.items]})
-            return
+        for sig, detail, _ in d.violations:
+            if report("search:" + sig, sig, detail + " (search)",
+                      {"avail": d.avail, "events": [g_event(it[0]) for it in d.items]}):
+                return
 
 
 def replay(ctx, obj):
